@@ -77,7 +77,8 @@ def gen(rng, tier):
             'maxlen': maxlen, 'classes': classes, 'longs': longs, 't0': t0,
             'online_cls': 'dt_on' if rng.random() < 0.6 else 'dt', 'offline_cls': 'dt_off' if rng.random() < 0.5 else 'dt',
             'set_sampling': True if (P, pu, tol) != (1, 's', 0.1) else rng.random() < 0.5,
-            'semantics': semantics, 'reparse': rng.random() < 0.25, 'pastify': rng.random() < 0.3}
+            'semantics': semantics, 'reparse': rng.random() < 0.25, 'pastify': rng.random() < 0.3,
+            'unit_switch': (rng.choice([u for u in ('s', 'ms', 'us') if u != (du or 's')]) if rng.random() < 0.3 else None)}
 
 
 def period_in_stamp_unit(sc):
@@ -159,6 +160,14 @@ def spec_desc(sc, cls, online=False):
         d['semantics'] = sc['semantics']      # the counter does not depend on the (interface-aware) semantics of the monitor
     if sc.get('pastify') and online:
         d['pastify'] = True       # pastify() of a past-time specification must change nothing, the counter included
+    if sc.get('unit_switch') and online and not sc.get('reparse') and not any(x[0] in sg.TUN + sg.TBIN for x in sg.walk(sc['ast'])):
+        # the monitor ran under ANOTHER default unit before (two updates one period apart, in that unit), then spec.unit was
+        # changed and the monitor reset: the period must now be taken in the new unit of the stamps
+        u1 = sc['unit_switch']
+        P1 = Fraction(sc['period'] * units.U[sc['pu']], units.U[u1])
+        st = [0, (int(P1) if P1.denominator == 1 else float(P1))]
+        d['prior'] = {'unit': u1, 'sampling': d.get('sampling'), 'reset_after': True,
+                      'updates': [[st[i], [(v, sc['data'][v][i]) for v in sc['vars']]] for i in range(2)]}
     if sc.get('reparse'):
         d['prior'] = {'spec': 'out = (%s) >= (0.0);' % sc['vars'][0], 'unit': d.get('unit'), 'sampling': d.get('sampling')}   # parsed twice (new text)
     return d
